@@ -155,6 +155,20 @@ func declared(sc *Scenario) *model {
 
 // transitive dependencies
 func (m *model) closure(v int) map[int]bool {
+	return m.closureSet(v)
+}
+
+// deps lists the transitive dependencies in ascending order (deterministic reports).
+func (m *model) tdeps(v int) []int {
+	var out []int
+	for d := range m.closureSet(v) {
+		out = append(out, d)
+	}
+	sort.Ints(out)
+	return out
+}
+
+func (m *model) closureSet(v int) map[int]bool {
 	out := map[int]bool{}
 	var rec func(int)
 	rec = func(x int) {
@@ -354,7 +368,7 @@ func (r *run) body(i int, ctx context.Context) error {
 	}
 	if g == 0 {
 		// C13: dependencies finished successfully, and visibly so
-		for d := range r.m.closure(i) {
+		for _, d := range r.m.tdeps(i) {
 			r.cnt.DepChecks++
 			as := r.attemptsOf(d, 0)
 			if len(as) == 0 {
@@ -394,7 +408,7 @@ func (r *run) body(i int, ctx context.Context) error {
 			}
 		}
 		// C14: nothing starts below a failed task / nothing is launched after an observed cancellation (checked in final)
-		for d := range r.m.closure(i) {
+		for _, d := range r.m.tdeps(i) {
 			as := r.attemptsOf(d, 0)
 			if len(as) > 0 && as[len(as)-1].exited && as[len(as)-1].result == "err" && len(as) > r.m.retries[d] {
 				r.fail("C14", "task %s started although task %s it depends on failed", tid(i), tid(d))
@@ -592,7 +606,7 @@ func (r *run) quiescent() {
 			continue
 		}
 		ready := true
-		for d := range r.m.closure(t) {
+		for _, d := range r.m.tdeps(t) {
 			as := r.attemptsOf(d, 0)
 			if len(as) == 0 || !as[len(as)-1].exited || as[len(as)-1].result != "ok" {
 				ready = false
@@ -731,7 +745,7 @@ func (r *run) final(res *verifrt.Result) {
 			continue
 		}
 		neverStarted++
-		for d := range m.closure(t) {
+		for _, d := range m.tdeps(t) {
 			if skipRoot[d] {
 				silent++
 				break
@@ -763,7 +777,7 @@ func (r *run) final(res *verifrt.Result) {
 			}
 			if finalRes[t] == "" {
 				above := false
-				for d := range m.closure(t) {
+				for _, d := range m.tdeps(t) {
 					if skipRoot[d] {
 						above = true
 					}
